@@ -70,6 +70,7 @@ OBLIGATIONS = [
     "VgiVerif.C11.C11_resume_reactive",
     "VgiVerif.C11.C11_iterate_reactive",
     "VgiVerif.C11.C11_chunking_reactive",
+    "VgiVerif.C11.token_age_tolerates_skew",
     "VgiVerif.C11.nwt_end_test",
     "VgiVerif.C11.C11_nwt_one_step",
     "VgiVerif.C11.C11_resume_token_rt",
@@ -88,7 +89,7 @@ RULE = (
     "random producers (0-8 steps; rows 0-1500 incl. zero-row data batches, bare or with metadata only; 0-2 logs before / after the batch; endings emit / finish / emit+finish / "
     "raise / nothing; header on/off; 0-2 init logs; half of them READ THEIR TICK: per-position alternative steps played when "
     "the tick carries the application key app.hint / any metadata, with init requests carrying application metadata) x caps {None, 1, exact cumulative sizes -1/0/+1 (straddling), a "
-    "random mid value, huge} x codecs {identity, zstd, gzip} x cache {warm 4096, cold 0}; resume at every token on a "
+    "random mid value, huge} x codecs {identity, zstd, gzip} x cache {warm 4096, cold 0} x per-worker wall-clock skew {0, -3, -1, +1, +3 s, stepping 2 s backwards per request} (token_ttl 3600: no token is legitimately expired); resume at every token on a "
     "second app instance; a case = (producer, configuration[, token index, resume mode]); non-trivial when the "
     "producer emits at least two batches; distinct by canonical JSON"
 )
@@ -214,6 +215,40 @@ def run_steps(m: dict[str, Any]) -> list[dict[str, Any]]:
     return out
 
 
+# ------------------------------------------------------------------------------------------ per-worker wall clocks
+
+
+class _SkewedTime:
+    """Stands in for the `time` module inside the server's token code: `time()` is the real clock plus the skew of the
+    worker that is serving the current request (set by `Rec.post` for the duration of the request)."""
+
+    delta = 0.0
+
+    def __getattr__(self, name: str) -> Any:
+        import time as _t
+
+        return getattr(_t, name)
+
+    def time(self) -> float:
+        import time as _t
+
+        return _t.time() + self.delta
+
+
+CLOCK = _SkewedTime()
+
+
+def install_clock() -> None:
+    from vgi_rpc.http.server import _app_stream, _state_token
+
+    for mod in (_state_token, _app_stream):
+        if getattr(mod, "time", None) is not CLOCK:
+            mod.time = CLOCK  # type: ignore[attr-defined]
+
+
+SKEWS: list[Any] = [0, 0, -3, -1, 1, 3, "back"]      # seconds; "back" = the worker's clock steps 2 s backwards at every request
+
+
 # ------------------------------------------------------------------------------------------ recording client
 
 
@@ -222,6 +257,8 @@ class Rec:
 
     def __init__(self, inner: Any, codec: str | None, init_md: dict[str, str] | None = None) -> None:
         self.init_md = init_md
+        self.skew: Any = 0
+        self.n_req = 0
         self.inner = inner
         self.prefix = inner.prefix
         self._default_headers = inner._default_headers
@@ -236,7 +273,12 @@ class Rec:
         path = urlparse(url).path
         if self.init_md and path.endswith("/init"):
             content, merged = self._with_app_metadata(content, merged)
-        r = self.inner._client.simulate_post(path, body=content, headers=merged)
+        self.n_req += 1
+        CLOCK.delta = -2.0 * self.n_req if self.skew == "back" else float(self.skew)
+        try:
+            r = self.inner._client.simulate_post(path, body=content, headers=merged)
+        finally:
+            CLOCK.delta = 0.0
         self.log.append({"path": path, "status": r.status_code, "body": r.content, "headers": {k.lower(): v for k, v in r.headers.items()}})
         return _SyncTestResponse(r.status_code, r.content, headers=dict(r.headers))
 
@@ -268,15 +310,18 @@ class Rec:
 class Worker:
     """One app instance (its own RpcServer, call-state cache and server id) sharing the token key."""
 
-    def __init__(self, desc: dict[str, Any], cap: int | None, codec: str | None, cache: int = 4096) -> None:
+    def __init__(self, desc: dict[str, Any], cap: int | None, codec: str | None, cache: int = 4096, skew: Any = 0) -> None:
         from vgi_rpc.http._testing import make_sync_client
         from vgi_rpc.rpc import RpcServer
 
+        install_clock()
         m = desc["methods"][0]
         self.P, self.impl = build(m)
         self.server = RpcServer(self.P, self.impl)
         self.cap, self.codec, self.cache = cap, codec, cache
         self.rec = Rec(make_sync_client(self.server, token_key=KEY, max_response_bytes=cap, call_state_cache_entries=cache), codec, m.get("init_md"))
+        self.rec.skew = skew      # this worker's wall clock = real clock + skew (token_ttl stays at its default, 3600 s)
+        self.skew = skew
         self.cur: list[Any] = []
 
     def connect(self) -> Any:
@@ -285,7 +330,7 @@ class Worker:
         return http_connect(self.P, client=self.rec, on_log=lambda m: self.cur.append(svcgen._ev_log(m)))
 
     def label(self) -> str:
-        return f"cap={self.cap},codec={self.codec},cache={self.cache}"
+        return f"cap={self.cap},codec={self.codec},cache={self.cache}" + (f",clock={self.skew:+}s" if isinstance(self.skew, int) and self.skew else (",clock=steps-back" if self.skew == "back" else ""))
 
     def close(self) -> None:
         with contextlib.suppress(Exception):
@@ -704,7 +749,7 @@ def check_config(ctx: Any, m: dict[str, Any], desc: dict[str, Any], ref: dict[st
     """Full iteration on one worker: K (response contents, observation) and O (sequence, sizes)."""
     name = m["name"]
     hdr = bool(m.get("header"))
-    w = Worker(desc, cap, codec, cache)
+    w = Worker(desc, cap, codec, cache, skew=ctx.rng.choice([0, 0, 0, "back", -3, 3]))
     try:
         evs, bodies = iterate_all(w, name)
     finally:
@@ -719,7 +764,7 @@ def check_config(ctx: Any, m: dict[str, Any], desc: dict[str, Any], ref: dict[st
     got = c01.obs_of(evs)
     if got["datas"] != want["datas"] or got["rest"] != want["rest"]:
         part = "datas" if got["datas"] != want["datas"] else "ending"
-        ctx.fail(case, f"C11:sequence-differs:{part}:{'capped' if cap is not None else 'nocap'}:{codec}{':reads-tick' if senses_init(m) else ''}",
+        ctx.fail(case, f"C11:sequence-differs:{part}:{'capped' if cap is not None else 'nocap'}:{codec}{':reads-tick' if senses_init(m) else ''}{':clock-steps-back' if w.skew == 'back' else ''}",
                  f"iterated {part} differ from the reference run: {json.dumps(got)[:300]} vs {json.dumps(want)[:300]}")
     # K: model prediction of every response from the reference sizes
     mod = None
@@ -820,7 +865,7 @@ def turn_tokens(views: list[dict[str, Any]], m: dict[str, Any]) -> list[tuple[in
 def check_resume(ctx: Any, m: dict[str, Any], desc: dict[str, Any], ref: dict[str, Any], pos: int, blob: bytes, minted: str,
                  capB: int | None, codecB: str | None, cacheB: int, mode: str, wB: Worker | None = None) -> None:
     own = wB is None
-    w = wB if wB is not None else Worker(desc, capB, codecB, cacheB)
+    w = wB if wB is not None else Worker(desc, capB, codecB, cacheB, skew=ctx.rng.choice(SKEWS))
     try:
         evs = resume(w, m["name"], blob, mode)
     finally:
@@ -828,14 +873,14 @@ def check_resume(ctx: Any, m: dict[str, Any], desc: dict[str, Any], ref: dict[st
             w.close()
     case = {"producer": m, "minted": minted, "token_pos": pos, "resumed_on": w.label() + ("" if own else ",same-worker"), "mode": mode}
     ctx.case(case, nontrivial=len(data_ids(m)) >= 2,
-             tags=(f"resume:{mode}", f"resume-cache:{'cold' if w.cache == 0 else 'warm'}", f"resume-codec:{w.codec}",
+             tags=(f"resume-clock:{w.skew}", f"resume:{mode}", f"resume-cache:{'cold' if w.cache == 0 else 'warm'}", f"resume-codec:{w.codec}",
                    "resume:same-worker" if not own else "resume:other-worker"))
     want = c01.obs_of(ref["evs"])
     got = c01.obs_of(evs)
     # O2: exactly the remaining batches (every token at position k follows k data batches), same ending
     if got["datas"] != want["datas"][pos:] or got["rest"] != want["rest"]:
         part = "datas" if got["datas"] != want["datas"][pos:] else "ending"
-        ctx.fail(case, f"C11:resume-differs:{part}:{mode}:{'cold' if w.cache == 0 else 'warm'}",
+        ctx.fail(case, f"C11:resume-differs:{part}:{mode}:{'cold' if w.cache == 0 else 'warm'}{':skewed-clock' if w.skew else ''}",
                  f"resumed at token {pos}: got {json.dumps(got)[:300]}, remaining {json.dumps(want['datas'][pos:])[:200]} / {want['rest']}")
     if ctx.driver is not None:
         a = model_args(m, ref, w.cap, w.cap)
@@ -872,7 +917,7 @@ def check_producer(ctx: Any, m: dict[str, Any], n_caps: int, n_resume: int) -> N
         return
     # per-batch tokens (next_with_token needs one data batch per response: minting worker without a cap)
     codecA = rng.choice(codecs)
-    wA = Worker(desc, None, codecA, rng.choice([4096, 0]))
+    wA = Worker(desc, None, codecA, rng.choice([4096, 0]), skew=rng.choice(SKEWS))
     try:
         evsA, toks = tokens_per_batch(wA, m["name"])
         caseA = {"producer": m, "config": wA.label(), "mode": "next_with_token"}
